@@ -69,7 +69,7 @@ func (sc *script) verdict(id, what string, reproduced bool) {
 	}
 
 	if !kf.Report(id) {
-		sc.t.Fatalf("C15 violated (%s, not listed as known): %s\n%s", id, what, sc.b.Hist)
+		sc.t.Fatalf("C15 violated (%s, not listed as known): %s\n%s\n==> C15 violated (%s): %s", id, what, sc.b.Hist, id, what)
 	}
 }
 
@@ -117,7 +117,7 @@ func TestKnown_C15_since_uses_stored_zone(t *testing.T) {
 
 // RFC 3501 6.4.8 / 9 (seq-number): a UID that does not exist is ignored without an error; on an empty view no UID
 // exists, so the search matches nothing.
-func TestKnown_C15_uid_key_empty_view(t *testing.T) {
+func TestKnown_C16_search_uid_key_empty_view(t *testing.T) {
 	sc := newScript(t)
 	sc.s.Select("INBOX", false)
 
